@@ -476,6 +476,8 @@ pub fn gen_spec(rng: &mut Rng, prop: &str, tier: Tier) -> Spec {
         }
         break (primes, shape);
     };
+    let mut primes = primes;
+    primes.sort();
     let n = product(&primes);
     let mut spec = Spec {
         n,
